@@ -32,10 +32,12 @@ CLAIMS = {
               "(eval_bound / eval_unbound) over unbounded trees and domains, through the elaborator whose tables are regenerated from "
               "/repo on every run. The P-model is tied to symbolic.py by comparing exact result sequences of generated cases on every run "
               "(caching disabled), and the implementation is compared with the specification with caching enabled and on re-evaluation; "
+              "C01_filter_dedup states the same for the D-model (the evaluator WITH its de-duplication of rows, Dedup.v, tied by the same "
+              "sequences): over one selected variable nothing is ever dropped; "
               "15 % of the cases are HISTORIES over a lazily consumed one-shot domain (C01_over_lazy_domain: the answer is the filter of the "
               "domain's content however much of it earlier, possibly abandoned, evaluations have read)."),
         design='7/C01', technique='Coq proof (structural induction over the expression tree; P-model) + translator-regenerated tables + model/implementation correspondence on result sequences',
-        note=BASE_NOTE + " The stateful layer (de-duplication sets, lazy domain, result caches) is not in the proved model: it is covered by the correspondence only; the cache path is C05's."),
+        note=BASE_NOTE + " Of the stateful layer the de-duplication sets are in the proved model (Dedup.v, on its fragment: no for_all / nested query / flatten inside) and the lazy domain in Lazy.v (C01_over_lazy_domain); the result caches are C05's."),
     'C02': dict(
         text=("Machine-checked theorems for any number of variables. Over the P-model: C02_partition (the true rows of every node partition "
               "the satisfying extensions of the incoming binding, the false rows the others), C02_all_selected (every satisfying assignment "
@@ -45,7 +47,9 @@ CLAIMS = {
               "tables the translator extracts from BinaryOperator / OR on every run): C02_dedup_cover (over ALL activations of a node in "
               "one evaluation every assignment an activation should serve is covered, up to the variables the parent requires, by an emitted "
               "row), C02_dedup_complete / C02_dedup_sound (so the de-duplicating evaluator returns exactly the projections of the "
-              "satisfying assignments), C02_required_variables (the facts about the extracted tables the induction needs). Unbounded "
+              "satisfying assignments), C02_all_selected_no_dedup / C02_all_selected_dedup (with every variable selected nothing is ever dropped: the "
+              "de-duplicating evaluator returns the P-model's rows in the same order, every satisfying assignment exactly once), "
+              "C02_required_variables (the facts about the extracted tables the induction needs). Unbounded "
               "trees, domains, numbers of variables, activations. Tie: exact row SEQUENCES of generated cases - projections included, "
               "against the D-model - on every run; cached configuration and re-evaluation against the specification."),
         design='7/C02 + 12.7', technique='Coq proof (partition/cover invariant by structural induction, counting argument; cover-up-to-required-variables invariant over all activations for the de-duplicating evaluator, over translator-extracted requirement tables) + correspondence on exact row sequences',
